@@ -164,6 +164,20 @@ def run(tier, replay=None):
                 rep.report(f"raise of {S.cname(R)} under arms {[S.cname(c) for c in arms]}: python gave "
                            f"{status} {msg} {out!r}", "emitted-handler-catches-wrong-set", r, {"emitted": src})
         ck.cov["catch_tests"] = {"run": n_catch, "wrong": n_catch_bad, "not_accepted": len(tests) - len(keep)}
+    # ---- lambdas as a call position (specification + emitted Python only, no model) ----------------------
+    if not replay:
+        seen_l = {}
+
+        def rep_lambda(what, cause, text, data):
+            seen_l[cause] = seen_l.get(cause, 0) + 1
+            known = ck.match_finding(text) is not None
+            if seen_l[cause] <= 3:
+                seen_l[cause + "/replay"] = ck.write_replay("lambda", dict(data, what=what, cause=cause, case_text=text))
+            if known or seen_l[cause] <= 3:
+                ck.violation(what, seen_l[cause + "/replay"], text)
+
+        ck.cov["lambda_call_positions"] = S.run_lambda_family(ck, rep_lambda, quick)
+        ck.cov["lambda_call_positions"]["causes"] = {k: v for k, v in seen_l.items() if not k.endswith("/replay")}
     ck.cov["direct_oracle"] = {"accepted_but_spec_forbids": n_sound, "rejected_but_spec_allows": n_over,
                                "accepted_by_code_rejected_by_repaired_threading": n_strict_diff,
                                "causes": rep.summary()}
@@ -178,7 +192,12 @@ def run(tier, replay=None):
                  "protection: declared raise [A] or single arm A, for raise / call / initialiser / inside branch and "
                  "loop, 4 hierarchies up to depth 4); raise lists with a plain or undefined class in every position "
                  "among Exception and real exception classes, with bodies raising it and arms for it at the call, and "
-                 "all-valid controls (quick: every second one); random programs of 4..14 nodes; distinct by skeleton "
-                 "and tables",
-                 samples, extra_eval=n_catch)
+                 "all-valid controls (quick: every second one); random programs of 4..14 nodes; and - outside the model - lambdas as a "
+                 "call position: a call of a raising function inside a lambda body at 8 positions (argument, "
+                 "initialiser, nested lambda, arithmetic, branch, method, loop, top level) x protection (none, "
+                 "declared raise [A], handled by A, handled only at the outer call) x every class R x every A x 4 "
+                 "hierarchies (quick: all unprotected + a sample); distinct by skeleton and tables",
+                 samples,
+                 extra_eval=n_catch + ck.cov.get("lambda_call_positions", {}).get("programs", 0)
+                 + ck.cov.get("lambda_call_positions", {}).get("python_runs", 0))
     return ck.finish()
